@@ -11,6 +11,7 @@ import Scico.Proofs.StepSizeEnv
 import Scico.Proofs.StepSizeRobust
 import Scico.Proofs.StepSizeHist
 import Scico.Proofs.StepSizeSpace
+import Scico.Proofs.StepSizeNaN
 import Mathlib.Analysis.InnerProductSpace.Basic
 import Mathlib.Analysis.InnerProductSpace.PiL2
 import Mathlib.Analysis.Complex.Basic
@@ -519,6 +520,80 @@ example : ∀ x y : ℝ, y ^ 2 / 2 ≤ x ^ 2 / 2 + inner ℝ x (y - x) + 1 / 2 *
   nlinarith
 
 end descent
+
+/-! ## round 3 -/
+
+section pgmrobust
+variable {V S : Type} [Zero S] [One S] [Add S] [Sub S] [Mul S] [Div S] [LE S] [DecidableLE S] [LT S]
+  [DecidableLT S] [IEEE S] [HasSqrt S]
+
+/-- **Plain `PGM` with `RobustLineSearchStepSize`** (the class is documented for accelerated PGM, but `PGM` accepts it):
+    the policy runs its search from `γ_d·L` at its own auxiliary point `y` and stores the accepted candidate in `Z`, but
+    `PGM.step` ignores `Z` — the new iterate is `x_step(x, L')` with the `L'` that was tested at `y`, not at `x`. -/
+theorem C16_pgm_robust (env : Env V S) (γd γu : S) (m : Nat) (s s' : PGMState V S)
+    (h : pgmStep env (.rls γd γu m) s = some s') :
+    update env (.rls γd γu m) s.x s.L s.ps s.x = some (s'.L, s'.ps) ∧
+    s'.x = xstep env s.x s'.L ∧
+    s'.ps.Z = some (rlsTrial env s.x s.ps.Tk (zrbOf s.ps s.x) s'.L).2.2.2 ∧
+    (rlsTrial env s.x s.ps.Tk (zrbOf s.ps s.x) s'.L).2.2.2 =
+      xstep env (rlsTrial env s.x s.ps.Tk (zrbOf s.ps s.x) s'.L).2.2.1 s'.L := by
+  unfold pgmStep at h
+  split at h
+  · cases h
+  · rename_i L ps hu
+    simp only [Option.some.injEq] at h
+    subst h
+    obtain ⟨k, _, _, _, _, _, hZ, _, _⟩ := update_rls env γd γu m s.x s.L s.ps s.x L ps hu (zrbOf s.ps s.x) rfl
+    exact ⟨hu, rfl, hZ, rfl⟩
+
+/-- On the first call (`T_k = 0`, `Zrb` unset) the auxiliary point is `(0·x + t·x)/t`: when the array operations satisfy
+    that this is `x` (true for exact vector arithmetic), the ignored candidate and the iterate coincide — the difference
+    shows from the second step on. -/
+theorem C16_pgm_robust_first_step (env : Env V S) (x : V) (L : S)
+    (hlaw : env.sdiv (env.add (env.smul 0 x) (env.smul (rlsTrial env x 0 x L).1 x)) (rlsTrial env x 0 x L).2.1 = x) :
+    (rlsTrial env x 0 x L).2.2.2 = xstep env x L := by
+  have : (rlsTrial env x 0 x L).2.2.1 = x := hlaw
+  show xstep env (rlsTrial env x 0 x L).2.2.1 L = xstep env x L
+  rw [this]
+
+end pgmrobust
+
+section nan
+variable {K : Type} [Field K] [LinearOrder K] [IsStrictOrderedRing K] [HasSqrt K] {V : Type}
+
+/-- **Function values outside the domain of the loss** (NaN, as for a loss with a logarithm or a square root): a candidate
+    whose `f(z)` is NaN is never accepted, whatever the quadratic model — the search backtracks (increases `L`) until the
+    candidate is inside the domain or the budget ends. -/
+theorem C16_linesearch_nan_candidate (env : Env V (XR K)) (v : V) (M : XR K)
+    (hz : env.f (xstep env v M) = nan) : ¬ Accept env v M := by
+  unfold Accept
+  rw [hz]
+  exact xr_not_nan_le _
+
+/-- … and when the current point itself is outside the domain (`f(v)` NaN) no value is accepted: `LineSearchStepSize.update`
+    tries `maxiter` candidates and returns the last value tried, `L·γ_u^(maxiter−1)`. -/
+theorem C16_linesearch_nan_point (env : Env V (XR K)) (γu : XR K) (maxiter : Nat) (x v : V) (L L' : XR K)
+    (ps ps' : PolState V (XR K)) (hv : env.f v = nan)
+    (h : update env (.ls γu (maxiter + 1)) x L ps v = some (L', ps')) :
+    (∀ M, ¬ Accept env v M) ∧ L' = geom L γu maxiter ∧ ps'.tried = maxiter + 1 := by
+  have hnone : ∀ M, ¬ Accept env v M := by
+    intro M
+    unfold Accept fquad
+    simp only [hv, xr_add_nan_left]
+    exact xr_not_le_nan _
+  refine ⟨hnone, ?_⟩
+  rcases C16_linesearch_update env γu (maxiter + 1) x L ps v L' ps' h with ⟨h0, _, _⟩ | ⟨k, hk, hL, ht, _, hend⟩
+  · omega
+  · rcases hend with ha | hlast
+    · exact absurd ha (hnone L')
+    · have : k = maxiter := by omega
+      subst this
+      exact ⟨hL, ht⟩
+
+end nan
+-- non-vacuity: a NaN value fails both comparisons, `nan + a` is NaN
+example : ¬ ((nan : XR ℚ) ≤ fin 1) ∧ ¬ ((fin 1 : XR ℚ) ≤ nan) ∧ (nan : XR ℚ) + fin 1 = nan :=
+  ⟨xr_not_nan_le _, xr_not_le_nan _, xr_add_nan_left _⟩
 
 /-! ### non-vacuity: concrete instances over `ℚ` -/
 
